@@ -57,6 +57,12 @@ func (r *c05Run) evaluateP(sc c05Scenario, schedule []int, pre *c05Preempt, ex *
 		fam += "-" + sc.Mode
 	}
 	r.rp.Add("executions_"+fam, 1)
+	if sc.Chunked {
+		r.rp.Add("executions_"+fam+"_chunked_reads", 1)
+	}
+	if sc.Share {
+		r.rp.Add("executions_shared_handle_object", 1)
+	}
 	r.rp.Add("operations_executed", float64(len(ex.Hist)))
 	out := c05Outcome(ex.Hist)
 	r.rp.Eval(sc.Backend + "|" + sc.shape() + "|" + out)
@@ -73,6 +79,10 @@ func (r *c05Run) evaluateP(sc c05Scenario, schedule []int, pre *c05Preempt, ex *
 	}
 	for _, s := range ex.Shapes {
 		r.violation("request-shape", in, "%s: %s", sc.Backend, s)
+	}
+	r.rp.Add("aliasing_checks", 1)
+	for _, a := range ex.Alias {
+		r.violation("aliasing", in, "%s: bytes changed after they crossed the API (a backend must not modify a caller's slice nor let a later operation change what an earlier handle reads): %s | scenario %s | history: %s", sc.Backend, a, sc, in.History)
 	}
 	bad := c05DirectRules(ex.Hist, sc.distinctWrites())
 	for _, b := range bad {
@@ -297,6 +307,9 @@ func c05Plan(thorough bool) []c05Scenario {
 		if !thorough && mode != "shared" {
 			offs = []int{0, 2}
 		}
+		if !thorough && mode == "reopen" {
+			offs = []int{2} // opening a backend object per operation is the slow part
+		}
 		add(c05Scenarios("sqlite", mode, 1, 2, offs, "rot"), 0, 0)
 		add(c05Scenarios("sqlite", mode, 2, 2, offs, "rot"), 0, 0)
 		add(c05Scenarios("sqlite", mode, 2, 2, []int{1}, "same"), 0, 0)
@@ -429,6 +442,59 @@ func c05Plan(thorough bool) []c05Scenario {
 					add([]c05Scenario{sc}, f, 0)
 				}
 			}
+		}
+	}
+	// --- one fetched handle used for two Replaces (by one client, or by two
+	// clients holding the same handle object), new value as long as / shorter /
+	// longer than the predecessor
+	for _, mode := range []string{"shared", "perconn", "reopen", "proc"} {
+		add(c05HandleReuseScenarios("sqlite", mode, false), 0, 0)
+		if mode != "proc" {
+			add(c05HandleReuseScenarios("sqlite", mode, true), 0, 0)
+		}
+	}
+	for _, be := range []string{"dynamodb", "etag"} {
+		for _, share := range []bool{false, true} {
+			for _, sc := range c05HandleReuseScenarios(be, "park", share) {
+				f := 0
+				if len(sc.Progs) == 1 || thorough {
+					f = 1
+				}
+				add([]c05Scenario{sc}, f, 0)
+			}
+		}
+	}
+	// --- reads answered without Content-Length (chunked transfer encoding)
+	for _, be := range []string{"dynamodb", "etag"} {
+		var scs []c05Scenario
+		f1, f2 := 1, 0
+		if thorough {
+			scs = append(scs, c05Scenarios(be, "park", 1, 2, all, "rot")...)
+			scs = append(scs, c05Scenarios(be, "park", 2, 2, all, "rot")...)
+			scs = append(scs, c05Scenarios(be, "park", 3, 1, []int{0, 3}, "rot")...)
+			f2 = 1
+		} else {
+			scs = append(scs, c05Scenarios(be, "park", 1, 2, []int{0, 2}, "rot")...)
+			for _, sc := range c05Scenarios(be, "park", 2, 2, []int{3}, "rot") {
+				if sc.nops() <= 3 {
+					scs = append(scs, sc)
+				}
+			}
+		}
+		bigs := []int{6}
+		if thorough {
+			bigs = []int{4, 5, 6, 7}
+		}
+		for _, v := range bigs {
+			scs = append(scs, c05BigValueScenarios(be, "park", v)[:2]...)
+		}
+		for _, sc := range scs {
+			sc.Chunked = true
+			f := f2
+			if len(sc.Progs) == 1 {
+				f = f1
+			}
+			add([]c05Scenario{sc}, f, 0)
 		}
 	}
 	// simplest first across all backends, so that a time cap cuts every
